@@ -161,11 +161,13 @@ def compare_doc(rep, src, out, folder, top):
             continue
         for f in sec[4]:
             if f[0] == 'E' and not contains(ofonts, f):
-                only_content = part == u'content.xml' and not (S.styles_fonts is not None and contains(S.styles_fonts[4], f))
-                sig = dropped.get(part) or (dropped.get(u'styles.xml') if not only_content else None) or \
-                      ('nested-section-element' if ctx['nested'] else None) or ('content-only-font-face' if only_content else
-                                            'subdocument-font-face-decls-dropped' if not top else 'font-face-lost')
-                rep.add(sig, '%s%s: font declaration %r not in the saved package' % (folder, part, L.attr(f, L.STYLENS, 'name')))
+                nm = L.attr(f, L.STYLENS, 'name')
+                other = S.content_fonts if part == u'styles.xml' else S.styles_fonts
+                same = [k for k in (other[4] if other is not None else []) if k[0] == 'E' and L.attr(k, L.STYLENS, 'name') == nm]
+                # the decidable class: the OTHER part declares a different font under the same style:name, and that one is kept
+                clash = bool(same) and any(contains(ofonts, k) for k in same)
+                sig = dropped.get(part) or ('font-face-name-clash' if clash else 'font-face-lost')
+                rep.add(sig, '%s%s: font declaration %r not in the saved package' % (folder, part, nm))
     # referenced automatic styles, each in its own part
     for part, auto, roots, oauto in ((u'content.xml', S.content_auto, [S.body], O.content_auto),
                                      (u'styles.xml', S.styles_auto, [S.master], O.styles_auto)):
@@ -357,6 +359,9 @@ def gen_cases(chk):
         if os.path.basename(f) in ('emb_spreadsheet.odp', 'spreadsheet-with-macro.ods'):
             cases.append({'base': 'file:' + f, 'mut': 'object-renumber', 'seed': rng.getrandbits(48)})
             cases.append({'base': 'file:' + f, 'mut': 'replicate-objects', 'seed': rng.getrandbits(48)})
+        if os.path.basename(f) in ('simplelist.odt', 'emb_spreadsheet.odp', 'cols.odp'):
+            for mname in ('fonts-differ', 'fonts-styles-only', 'inline-document'):
+                cases.append({'base': 'file:' + f, 'mut': mname, 'seed': rng.getrandbits(48)})
         if os.path.basename(f) in ('simplelist.odt', 'twolevellist.odt', 'headerfooter.odt', 'pythagoras.ods'):
             cases.append({'base': 'file:' + f, 'mut': 'same-name-kinds', 'seed': rng.getrandbits(48)})
     for w in ('w1', 'w2', 'w4'):
